@@ -1,6 +1,7 @@
 (* C08 -- The intermediate columnar store is lossless, ordered and randomly addressable. *)
 From Coq Require Import ZArith Arith List Bool.
 From B2Z Require Import Model.Icf Proofs.IcfProofs Gen.GenIcfWriter Bridge.BridgeIcfWriter.
+From B2Z Require Import Gen.GenIterValues Bridge.BridgeIterValues.
 Import ListNotations.
 Open Scope nat_scope.
 
@@ -24,6 +25,26 @@ Theorem range_read : forall (A : Type) (s : list (list (list A))) (a b : nat),
   iter_values s a b = firstn (b - a) (skipn a (all_values s)).
 Proof. exact range_read. Qed.
 Print Assumptions range_read.
+
+(* TRANSLATOR TIE: IntermediateColumnarFormatField.iter_values as regenerated from the source on this run
+   (translator/iter2coq.py -> Gen/GenIterValues.v: the two searchsorted(side="right") - 1 look-ups, the first partition's
+   record loop with its `== stop: return` / `>= start: yield` / `+= 1` statements, the later partitions' loop) is the
+   model's function ... *)
+Theorem translated_iter_values_is_the_model : forall (A : Type) (s : list (list (list A))) (start stop : nat),
+  gen_iter_values A s start stop = iter_values s start stop.
+Proof. exact translated_iter_values_lemma. Qed.
+Print Assumptions translated_iter_values_is_the_model.
+
+(* ... hence the range read of the TRANSLATED source equals the slice, for every store shape and every a < b *)
+Theorem translated_range_read : forall (A : Type) (s : list (list (list A))) (a b : nat),
+  a < b -> b <= length (all_values s) ->
+  gen_iter_values A s a b = firstn (b - a) (skipn a (all_values s)).
+Proof. intros A s a b H1 H2. rewrite translated_iter_values_lemma. apply IcfProofs.range_read; assumption. Qed.
+Print Assumptions translated_range_read.
+
+Example translated_iter_values_instance :
+  gen_iter_values nat [[[1; 2]; [3]]; []; [[4]; []; [5; 6; 7]]] 2 6 = [3; 4; 5; 6].
+Proof. vm_compute. reflexivity. Qed.
 
 Theorem num_records_eq : forall (A : Type) (thr : Z) (parts : list (list (A * Z))),
   Icf.num_records (map (write_partition thr) parts) = length (concat parts).
